@@ -22,6 +22,17 @@ import tempfile
 import time
 import traceback
 
+# Scratch files of the harness (mkdtemp per compilation, the rebuilt C extension) go to a memory-backed directory when there
+# is one: on a loaded machine mkdtemp+rmtree on the disk-backed /tmp costs more than a compilation (measured: 3943
+# compilations 238 s -> 23 s). TMPDIR, when set by the caller, is respected.
+if "TMPDIR" not in os.environ and os.path.isdir("/dev/shm") and os.access("/dev/shm", os.W_OK | os.X_OK):
+    try:
+        _st = os.statvfs("/dev/shm")
+        if _st.f_bavail * _st.f_frsize > (2 << 30):
+            tempfile.tempdir = "/dev/shm"
+    except OSError:
+        pass
+
 HERE = os.path.dirname(os.path.abspath(__file__))
 VERIF = os.path.dirname(HERE)
 LEAN_DIR = os.path.join(VERIF, "lean")
@@ -145,6 +156,24 @@ def theorem_at(path, lineno):
     return None
 
 
+def lean_import_closure(modules):
+    """Transitive `import VelaVerif...` closure of Lean modules, read from the sources."""
+    seen, todo = set(), [m for m in modules if m.startswith("VelaVerif")]
+    while todo:
+        m = todo.pop()
+        if m in seen:
+            continue
+        seen.add(m)
+        path = os.path.join(LEAN_DIR, *m.split(".")) + ".lean"
+        try:
+            txt = open(path, encoding="utf-8").read()
+        except OSError:
+            continue
+        for mm in re.findall(r"^import\s+(VelaVerif[\w.]*)", txt, flags=re.M):
+            todo.append(mm)
+    return seen
+
+
 def lean_stage(prop_modules, extra_targets=()):
     """gen_tables -> lake build (library, driver, property modules) -> audit. Never raises on a
     proof failure: returns LeanResult with .ok False and the failing obligations named."""
@@ -153,9 +182,25 @@ def lean_stage(prop_modules, extra_targets=()):
         r = _run([PY, os.path.join(HERE, "gen_tables.py")], env=dict(os.environ, VERIF_REPO=REPO))
         res.log += r.stdout + r.stderr
         if r.returncode != 0:
-            # table extraction failed: the code no longer has the shape the translator reads
+            # the translator itself died: the code no longer has the shape it reads
             res.ok = False
             res.failed.append("translator harness/gen_tables.py failed: " + (r.stderr.strip().split("\n") or ["?"])[-1])
+        else:
+            # a plug-in that failed concerns only the checks whose property modules import one of its files
+            try:
+                status = json.load(open(os.path.join(LEAN_DIR, "VelaVerif", "Gen", ".status.json")))
+            except Exception:
+                status = {"failed": {}}
+            if status.get("failed"):
+                closure = lean_import_closure(list(prop_modules) + list(extra_targets))
+                for name, info in sorted(status["failed"].items()):
+                    mods = {"VelaVerif.Gen." + f[:-5].replace("/", ".") for f in info.get("files") or []}
+                    if not mods or (mods & closure):
+                        res.ok = False
+                        res.failed.append(f"translator plug-in harness/tables/{name}.py failed: {info.get('error')} "
+                                          f"(tables {sorted(mods) or '?'} are stale)")
+                    else:
+                        res.log += f"(translator plug-in {name} failed; its tables {sorted(mods)} are not imported by {prop_modules})\n"
         # the driver and model must build, otherwise nothing can run
         r = _run(["lake", "build", "drv"], cwd=LEAN_DIR)
         res.log += r.stdout + r.stderr
@@ -196,7 +241,9 @@ def lean_stage(prop_modules, extra_targets=()):
         finally:
             os.unlink(tf.name)
         res.log += r.stdout + r.stderr
-        for m in re.finditer(r"THEOREM (\S+) AXIOMS \[(.*?)\]", r.stdout, re.S):  # re.S: long names wrap the axiom list
+        n_before = len(res.theorems)
+        # the pretty-printer wraps long messages: match across line breaks, and cross-check the count the audit command reports
+        for m in re.finditer(r"THEOREM\s+(\S+)\s+AXIOMS\s+\[(.*?)\]", r.stdout, flags=re.S):
             axs = [a.strip() for a in m.group(2).split(",") if a.strip()]
             res.theorems[m.group(1)] = axs
             bad = [a for a in axs if a not in ALLOWED_AXIOMS]
@@ -204,9 +251,13 @@ def lean_stage(prop_modules, extra_targets=()):
                 res.bad_axioms[m.group(1)] = bad
                 res.ok = False
                 res.failed.append(f"{m.group(1)} depends on non-standard axioms {bad}")
-        if "AUDIT-END" not in r.stdout:
+        mend = re.search(r"AUDIT-END\s+\S+\s+(\d+)", r.stdout)
+        if not mend:
             res.ok = False
             res.failed.append(f"audit of {mod} did not complete: {(r.stdout + r.stderr)[-300:]}")
+        elif int(mend.group(1)) != len(res.theorems) - n_before:
+            res.ok = False
+            res.failed.append(f"audit of {mod}: {mend.group(1)} theorems declared, {len(res.theorems) - n_before} audited (output not parsed completely)")
     # thorough tier: independent re-check of the compiled property modules with leanchecker
     if os.environ.get("VERIF_LEANCHECKER") == "1":
         for mod in prop_modules:
@@ -270,6 +321,8 @@ def load_known_findings():
 
 
 class Check:
+    current = None      # the Check of this process (main_wrapper reports through it)
+
     def __init__(self, pid, level, argv=None):
         argv = sys.argv[1:] if argv is None else argv
         self.pid = pid
@@ -297,6 +350,7 @@ class Check:
         self.samples = []
         os.makedirs(os.path.join(VERIF, "replays"), exist_ok=True)
         os.makedirs(os.path.join(VERIF, "evidence"), exist_ok=True)
+        Check.current = self
 
     @property
     def thorough(self):
@@ -429,8 +483,27 @@ class Check:
         sys.exit(1 if self.violations else 0)
 
 
+def _raised_in_repo(tb):
+    """(file, line, function) of the innermost frame of the traceback if that frame is code of the repository under test
+    (the implementation raised while the harness was driving it), else None."""
+    frames = traceback.extract_tb(tb)
+    if not frames:
+        return None
+    last = frames[-1]
+    root = os.path.realpath(REPO) + os.sep
+    fn = os.path.realpath(last.filename)
+    if fn.startswith(root) and (os.sep + "ethosu" + os.sep) in fn:
+        return (os.path.relpath(fn, root), last.lineno, last.name)
+    return None
+
+
 def main_wrapper(fn):
-    """Run a check's main(); map unexpected exceptions to exit 2 (infrastructure), never VIOLATION."""
+    """Run a check's main(). InfraError and exceptions of the harness's own code are exit 2 (infrastructure), never a
+    VIOLATION. An exception that the implementation itself raises while a harness drives it directly (function-level
+    correspondence on harness-built objects) means that this correspondence can no longer be run: by the rules of the
+    task that is reported - as a violation whose replay names the correspondence and the raising site, marked
+    no-failing-input-found - rather than silently skipped (exit 2 would hide a change that makes the code read a field,
+    take an argument or follow a path the unchanged code did not)."""
     try:
         fn()
     except SystemExit:
@@ -438,7 +511,19 @@ def main_wrapper(fn):
     except InfraError as e:
         print("INFRA-ERROR:", e)
         sys.exit(2)
-    except Exception:
+    except Exception as e:
         traceback.print_exc()
-        print("INFRA-ERROR: unexpected exception in harness")
-        sys.exit(2)
+        site = _raised_in_repo(e.__traceback__)
+        ck = Check.current
+        if site is None or ck is None or isinstance(e, (MemoryError, OSError)):
+            print("INFRA-ERROR: unexpected exception in harness")
+            sys.exit(2)
+        what = (f"correspondence could not be run: the implementation raised {type(e).__name__}: {str(e)[:160]} at "
+                f"{site[0]}:{site[1]} ({site[2]}) on an input built by the harness of {ck.pid}")
+        ck.violation(what, {"correspondence": f"harness/check_{ck.pid}.py (function-level correspondence / artefact extraction)",
+                            "raised": type(e).__name__, "message": str(e)[:500], "site": list(site),
+                            "traceback_tail": traceback.format_exc()[-3000:]}, found_input=False)
+        ck.finish({"evaluations": 0, "distinct_nontrivial": 0, "programs": 0, "disagreements_checked": 0,
+                   "rule": "run aborted: see explanation", "samples": [what],
+                   "explanation": what + "; no further case of this run was evaluated"},
+                  assumptions=["run aborted by an exception raised inside the repository under test"])
